@@ -26,9 +26,10 @@ Definition inflight (p : pullst) : nat := match p with PSendData => 1 | _ => 0 e
 Definition Inv (total : nat) (s : st) : Prop :=
   length (buf s) <= cap
   /\ (closed s = true <-> pull s = PDone)
-  /\ (done_ s = false ->
-        drain s = DWait /\ nerr (buf s) = 0 /\ pull s <> PSendErr
-        /\ received s + ndata (buf s) + inflight (pull s) + remaining s = total
+  /\ (done_ s = false -> drain s = DWait)
+  /\ (done_ s = false -> nerr (buf s) = 0 -> pull s <> PSendErr -> cons s <> CRetErr ->
+        (* no failure of the child so far: every batch is accounted for *)
+        received s + ndata (buf s) + inflight (pull s) + remaining s = total
         /\ (pull s = PClose \/ pull s = PDone -> remaining s = 0))
   /\ (drain s = DStopped -> closed s = true /\ buf s = [])
   /\ (cons s = CAfterLoop -> closed s = true /\ buf s = [])
@@ -43,7 +44,7 @@ Qed.
 Lemma inv_after_return total s : Inv total s -> Inv total (after_return s).
 Proof.
   unfold after_return. destruct (finished_consumer s); [|auto].
-  unfold Inv; simpl. intros (H1 & H2 & _ & H4 & H5 & H6). repeat split; try tauto; try discriminate; apply H2.
+  unfold Inv; simpl. intros (H1 & H2 & _ & _ & H4 & H5 & H6). repeat split; try tauto; try discriminate; apply H2.
 Qed.
 
 Ltac inv_crush :=
@@ -55,6 +56,7 @@ Ltac inv_crush :=
   repeat match goal with
          | H : ?a = ?a -> _ |- _ => specialize (H eq_refl)
          | H : ?P -> _, H' : ?P |- _ => specialize (H H')
+         | H : ?a <> ?b -> _ |- _ => let N := fresh "N" in assert (N : a <> b) by discriminate; specialize (H N); clear N
          | H : _ /\ _ |- _ => destruct H
          | H : _ <-> _ |- _ => destruct H
          | H : _ = _ \/ _ = _ |- _ => destruct H
@@ -63,6 +65,10 @@ Ltac inv_crush :=
   try (subst; simpl in *;
        repeat match goal with
               | H : _ \/ _ -> _ |- _ => first [specialize (H (or_introl eq_refl)) | specialize (H (or_intror eq_refl))]
+              | H : ?P -> _ |- _ =>
+                  match type of P with Prop => idtac end;
+                  let N := fresh "N" in assert (N : P) by (first [reflexivity | discriminate | lia | congruence]); specialize (H N); clear N
+              | H : _ /\ _ |- _ => destruct H
               end;
        first [lia | congruence | tauto]).
 
@@ -92,8 +98,8 @@ Proof.
     destruct s as [d b c p r dr cs rc]; simpl in *.
     destruct p; simpl in Hin.
     - destruct d; destruct Hin as [<-|[]]; inv_crush.
-    - apply in_app_or in Hin. destruct Hin as [Hin|Hin].
-      + destruct d; [|destruct Hin]. destruct Hin as [<-|[]]. inv_crush.
+    - destruct Hin as [<-|Hin].
+      + inv_crush.
       + destruct r; destruct Hin as [<-|[]]; inv_crush.
     - destruct b as [|m1 [|m2 [|m3 b]]]; simpl in Hin; try (destruct Hin; fail);
         destruct Hin as [<-|[]]; try destruct m1; inv_crush.
@@ -144,7 +150,7 @@ Proof.
   destruct d; [|discriminate]. clear Hd.
   apply app_eq_nil in Hs. destruct Hs as [Hc Hs]. apply app_eq_nil in Hs. destruct Hs as [Hp Hdr].
   unfold final, Inv, cap in *; simpl in *.
-  destruct HI as (H1 & H2 & _ & H4 & H5 & H6).
+  destruct HI as (H1 & H2 & _ & _ & H4 & H5 & H6).
   (* the producer *)
   assert (Ep : p = PDone).
   { destruct p; try discriminate; try reflexivity.
@@ -197,8 +203,8 @@ Proof.
   apply in_app_or in Hin. destruct Hin as [Hin|Hin].
   { destruct p; simpl in Hin.
     - destruct d; destruct Hin as [<-|[]]; unfold mu; simpl; lia.
-    - apply in_app_or in Hin. destruct Hin as [Hin|Hin].
-      + destruct d; [|destruct Hin]. destruct Hin as [<-|[]]. unfold mu; simpl; lia.
+    - destruct Hin as [<-|Hin].
+      + unfold mu; simpl; lia.
       + destruct r; destruct Hin as [<-|[]]; unfold mu; simpl; lia.
     - destruct (Nat.ltb (length b) cap); [|destruct Hin]. destruct Hin as [<-|[]].
       unfold mu; simpl. rewrite app_length. simpl. lia.
